@@ -69,6 +69,57 @@ def rule_clean(ctx):
                 n += 1
                 if cc.local_callee() is not None or (cc.tname or "").startswith("hashbrown::") or cc.unresolved:
                     R.viol("%s:cleanup:%s" % (b.path, cc.tname), cc.where(), "an unwinding path of %s calls %s" % (b.path, cc.tname))
+    # (e) types whose Drop calls a user closure again (the lazily draining iterators) are only ever built and handed to the caller: the crate never
+    #     drives or drops one itself, or a panic of the closure would re-enter it from the destructor during unwinding
+    reent = {}
+    for b in ctx.facts.bodies.values():
+        if b.name == "drop" and b.raw.get("trait") == "core::ops::Drop" and "self_ty" in b.raw:
+            adt = T[b.raw["self_ty"]].get("adt")
+            if adt is None or not adt.startswith(ctx.facts.crate + "::"):
+                continue
+            for p2 in ctx.reachable_bodies(b.path):
+                b2 = ctx.facts.bodies.get(p2)
+                if b2 is not None and any(c.unresolved and c.name in ("core::ops::FnMut::call_mut", "core::ops::Fn::call", "core::ops::FnOnce::call_once")
+                                          for c in ctx.calls(b2)):
+                    reent[adt] = b.path
+                    break
+    if len(reent) < 2:
+        R.anchor("re-entrant droppers", "expected the two lazily draining iterators whose Drop calls the user predicate, found %s" % sorted(reent))
+
+    def strip(ti):
+        t_ = T[ti]
+        while t_["k"] == "ref" or t_["k"] == "ptr":
+            t_ = T[t_["inner"]]
+        return t_
+    for b in ctx.facts.bodies.values():
+        own = ctx.facts.closure_parent(b)
+        if "self_ty" in own.raw and strip(own.raw["self_ty"]).get("adt") in reent:
+            continue
+        if own.name == "drop" and own.raw.get("trait") == "core::ops::Drop":
+            continue
+        seen_here = False
+        for x in sorted(b.reachable()):
+            t = b.term(x)
+            if t["k"] == "drop" and T[t["place"]["ty"]].get("adt") in reent:
+                seen_here = True
+                R.viol("%s:drops-reentrant-iterator" % b.path, b.where(Loc(x, len(b.stmts(x)))),
+                       "%s drops a %s it built itself: a panic of the user closure would call the closure again from the destructor while unwinding" % (b.path, T[t["place"]["ty"]]["s"]))
+            elif t["k"] == "call":
+                cc = ctx.call_at(b, x)
+                for a in cc.args:
+                    ti = a["place"]["ty"] if a.get("k") in ("move", "copy") else None
+                    if ti is not None and strip(ti).get("adt") in reent:
+                        seen_here = True
+                        R.viol("%s:drives-reentrant-iterator" % b.path, cc.where(),
+                               "%s hands a %s it built itself to %s: a panic of the user closure would call the closure again from the destructor while unwinding" % (b.path, strip(ti)["s"], cc.tname))
+                        break
+                if cc.dest is not None and T[cc.dest["ty"]].get("adt") in reent:
+                    seen_here = True
+        if not seen_here and b.local_ty(0).get("adt") in reent:
+            seen_here = True
+        if seen_here:
+            n += 1
+            R.inst(fn=b.path, window="builds a lazily draining iterator", verdict="handed to the caller")
     R.floor(2, "window sites")
     return R
 
